@@ -650,6 +650,36 @@ def views_from_buffer(facts, res, classes=("TbfParticlesContainer", "TbfCellsCon
     return n
 
 
+CONST_FEED_TU = None
+
+
+def const_feed_witness(res, tier, R="C14.3.const-feed"):
+    """the feed of the raw-memory constructors - getDataPtrsAndSizes() - exists in a const overload: a group reached through a const
+    reference (every group of a const tree) must be able to publish its (pointer, size) pairs too.  Compile witness: both container
+    kinds, called through a const reference; each returned array has one pair per buffer (3 / 2) and a pair's pointer is to const bytes."""
+    import witness
+    tu = witness.HEADERS + """
+#include <type_traits>
+using RealType = double;
+template <class GroupClass> auto feed(const GroupClass& inGroup){ return inGroup.getDataPtrsAndSizes(); }
+void witnessConstFeed(const TbfCellsContainer<RealType, std::array<RealType,2>, std::array<RealType,3>>& inCells,
+                      const TbfParticlesContainer<RealType, RealType, 4, RealType, 2>& inParticles){
+    auto c = feed(inCells);
+    auto p = feed(inParticles);
+    static_assert(std::tuple_size<decltype(c)>::value == 3, "cells: data, multipole, local");
+    static_assert(std::tuple_size<decltype(p)>::value == 2, "particles: data, rhs");
+    static_assert(std::is_same<decltype(c[0].first), const unsigned char*>::value, "const group publishes const bytes");
+    static_assert(std::is_same<decltype(p[0].first), const unsigned char*>::value, "const group publishes const bytes");
+}
+"""
+    for comp in (("g++",) if tier == "quick" else ("g++", "clang++")):
+        rc, err = tbf.compile_witness(tu, compiler=comp, name="c14_const_feed.cpp", max_errors=6)
+        res.instance(R, comp, "witness:c14_const_feed", "getDataPtrsAndSizes() const on a cell group and a particle group: rc=%d" % rc)
+        if rc != 0:
+            f, line, msg, _ = witness.first_src_error(err)
+            res.violation(R, f, "<witness c14_const_feed>", "%s:%d" % (f, line), line, "the const overload of getDataPtrsAndSizes() does not compile when used (%s): %s" % (comp, msg[:260]))
+
+
 def run(res, tier):
     facts = tbf.scan("core")
     res.units.append("umbrella TU 'core': TbfMemoryBlock, 4 block kinds with their viewers, TbfCellsContainer / TbfParticlesContainer raw-memory interface")
@@ -659,6 +689,7 @@ def run(res, tier):
     trailer(facts, res)
     strides(facts, res)
     buffer_order(facts, res, tier)
+    const_feed_witness(res, tier)
     res.rule("C14.5 the description travels with the buffer: move assignment of TbfMemoryBlock takes every data member from its argument (pointer, size, capacity, table pointers, block pointers, ownership); a member left behind describes the destination's old buffer and the published (pointer, size) no longer matches the allocation")
     import c15
     sub = tbf.Result("C15")
